@@ -349,6 +349,10 @@ def run(ctx, res):
     res.floor("C04.R9", 1)
     closures.check(ctx, res, "C04.R9", ('mtbl_merger_options', 'heap'))
 
+    # ---- the heap is in order when an iterator is handed out (shared with C05) --------------------------------
+    from . import c05 as _c05
+    _c05.heap_ready(ctx, res, "C04.R12")
+
     # ---- heap discipline ----------------------------------------------------------------------
     from . import heaprule
     heaprule.check(ctx, res, "C04.R10")
